@@ -289,12 +289,13 @@ CLAIMED = {
              "the registration, between registration and the release of the temporary reference, or later (C14_no_lost_wakeup). Connection side: "
              "run_loop consults the stop listener before starting a request (C14_nothing_new); in-flight requests complete: C14_inflight_handler_completes / "
              "C14_inflight_close_completes / C14_blocked_request_keeps_waiting - a handler run and Request::close behave identically (same "
-             "result, bytes read and written, observations) whenever and however often shutdown is requested meanwhile; 'idle connections "
-             "stop without reading' is decided by the correspondence check (shutdown requested before every scheduling step k of Pending-heavy "
+             "result, bytes read and written, observations) whenever and however often shutdown is requested meanwhile; idle connections: C14_idle_connection_stops / "
+             "C14_pending_read_sees_stop - the read between requests is given up as soon as shutdown is requested, nothing further is read or "
+             "written; end to end this is also exercised by the correspondence check (shutdown requested before every scheduling step k of Pending-heavy "
              "connections, idle clients woken by shutdown) + oracle. The wait-group windows are forced on the real crate through the "
              "cfg(fastcgi_server_verif) hook (/repo ed42bbf).",
         design="6/C14, 13.4", technique="Coq proof (wait-group transition system, all window placements) + differential execution with hook-forced interleavings and shutdown injected at every scheduling step",
-        note="Arc/Weak/AtomicWaker modelled; select polls its left future first (modelled); idle-connection clause by correspondence + oracle."),
+        note="Arc/Weak/AtomicWaker modelled; select polls its left future first (modelled); all clauses have theorems; the composition over a whole connection is exercised by the correspondence check."),
 }
 
 PENDING = {}
